@@ -2069,6 +2069,7 @@ impl<W: std::io::Write + std::io::Seek> Encoder<W> {
 
                         let seektable = SeekTable {
                             points: encoded_points
+                                .take(SeekTable::MAX_POINTS)
                                 .map(|p| p.into())
                                 .collect::<Vec<_>>()
                                 .try_into()
